@@ -40,6 +40,13 @@ OFS = {
     ':not(:first-child)': [[{'pseudos': [('not', [[{'pseudos': [('first-child',)]}]])]}]],
     '.x ~ *': [[{'classes': ['x']}, '~', {'tag': (None, '*')}]],
 }
+COMBINED_OFS = {
+    ':first-child ~ *': [[{'pseudos': [('first-child',)]}, '~', {'tag': (None, '*')}]],
+    ':first-child ~ a': [[{'pseudos': [('first-child',)]}, '~', {'tag': (None, 'a')}]],
+    'b + *': [[{'tag': (None, 'b')}, '+', {'tag': (None, '*')}]],
+    ':not(:first-child):not(b)': [[{'pseudos': [('not', [[{'pseudos': [('first-child',)]}]]), ('not', [[{'tag': (None, 'b')}]])]}]],
+}
+COMBINED_SECOND = [('nth-of-type', 0, 2), ('nth-of-type', 2, 1), ('nth-last-of-type', 0, 1), ('nth-of-type', 1, 0), ('nth-last-of-type', 2, 0), ('nth-of-type', 0, 1)]
 KEYWORDS = {'first-child': [('nth-child', 0, 1)], 'last-child': [('nth-last-child', 0, 1)],
             'only-child': [('nth-child', 0, 1), ('nth-last-child', 0, 1)],
             'first-of-type': [('nth-of-type', 0, 1)], 'last-of-type': [('nth-last-of-type', 0, 1)],
@@ -307,6 +314,19 @@ def run_unit(u):
                                         st, got, exp = one(sv, target, top, sibs, klist, text, ref, idmap, orphan)
                                         record(st, seq, inter, place, variant, text, klist, got, exp, sibs)
                                         bump('of_S')
+                                    # two positional pseudo-classes in ONE compound: an `of S` form whose S reaches, through a combinator, a
+                                    # positional pseudo-class on a sibling of another type - followed (or preceded) by an -of-type form
+                                    # for the element itself (each counts for the element it is asked about)
+                                    if (a + 2 * b + len(seq)) % 3 == 0:
+                                        for of_text, of_ast in COMBINED_OFS.items():
+                                            k2, a2, b2 = COMBINED_SECOND[(a + b + len(of_text)) % len(COMBINED_SECOND)]
+                                            first = render_nth(kind, sp[0], of_text, '')
+                                            second = render_nth(k2, spellings(a2, b2)[0], None, '')
+                                            text = (first + second) if (a + b) % 2 else (second + first)
+                                            klist = [(kind, a, b, of_ast), (k2, a2, b2, None)]
+                                            st, got, exp = one(sv, target, top, sibs, klist, text, ref, idmap, orphan)
+                                            record(st, seq, inter, place, variant, text, klist, got, exp, sibs)
+                                            bump('two_positional_in_one_compound')
                     for kw, eq in KEYWORDS.items():
                         for text in (':' + kw, ':' + kw.upper()):
                             klist = [(k, a, b, None) for (k, a, b) in eq]
